@@ -441,7 +441,9 @@ impl Calendar {
     pub fn week_of_year(&self, iso_date: &IsoDate) -> TemporalResult<Option<u16>> {
         if self.is_iso() {
             let date = iso_date.to_icu4x();
-            let week_calculator = WeekCalculator::default();
+            // ISO 8601 weeks (Monday first is the default): week 1 is the week with at least 4 days in the year.
+            let mut week_calculator = WeekCalculator::default();
+            week_calculator.min_week_days = 4;
             let week_of = date.week_of_year(&week_calculator);
             return Ok(Some(week_of.week as u16));
         }
@@ -454,7 +456,9 @@ impl Calendar {
         if self.is_iso() {
             let date = iso_date.to_icu4x();
 
-            let week_calculator = WeekCalculator::default();
+            // ISO 8601 weeks (Monday first is the default): week 1 is the week with at least 4 days in the year.
+            let mut week_calculator = WeekCalculator::default();
+            week_calculator.min_week_days = 4;
 
             let week_of = date.week_of_year(&week_calculator);
 
